@@ -92,7 +92,8 @@ package block
 //@   ensures[C11] !old(it.initialized) && it.reader.n == 0 ==> it.currentKey == nil && !result
 
 // Seek(t): positioned on the FIRST entry whose key is >= t (every earlier key is smaller), or past the end if every key
-// is smaller.  Binary search invariant: restart key `left` is <= t (if left > 0) and restart key right+1 is > t.
+// is smaller.  Binary search invariant: restart key `left` is <= t (if left > 0) - all that correctness needs, since the
+// scan that follows runs forward from there; which restart point <= t the search ends on is a matter of speed only.
 //@ func (*Iterator).Seek
 //@   safety[C11]
 //@   requires IterOK(it) && BlockModel(it.reader)
@@ -104,7 +105,6 @@ package block
 //@ loop (*Iterator).Seek#1
 //@   invariant[C11] 0 <= left && left <= right && right <= len(it.reader.restartPoints) - 1
 //@   invariant[C11] left > 0 ==> !blt(bstr(target), it.reader.keys[16 * left])
-//@   invariant[C11] right < len(it.reader.restartPoints) - 1 ==> blt(bstr(target), it.reader.keys[16 * (right + 1)])
 //@ loop (*Iterator).Seek#2
 //@   invariant[C11] Cursor(it) && At(it, it.gi - 1) && (forall i int :: 0 <= i && i < it.gi ==> blt(it.reader.keys[i], bstr(target)))
 
